@@ -8,9 +8,11 @@ package main
 
 import (
 	"bytes"
+	"crypto/ed25519"
 	"fmt"
 	"math/rand"
 	"strings"
+	"time"
 
 	"github.com/brutella/hc/accessory"
 	"github.com/brutella/hc/crypto"
@@ -89,6 +91,8 @@ func jsonMalformed(r *rand.Rand, aid, iid uint64) []malInput {
 		put("value string", ch(`"yes"`)),
 		put("value number for bool", ch("17.5")),
 		put("value deep nesting", ch(deep)),
+		put("unsubscribe without subscription", fmt.Sprintf(`{"characteristics":[{"aid":%d,"iid":%d,"ev":false}]}`, aid, iid)),
+		put("unsubscribe twice and subscribe twice", fmt.Sprintf(`{"characteristics":[{"aid":%d,"iid":%d,"ev":true},{"aid":%d,"iid":%d,"ev":true},{"aid":%d,"iid":%d,"ev":false},{"aid":%d,"iid":%d,"ev":false}]}`, aid, iid, aid, iid, aid, iid, aid, iid)),
 		put("ev not bool", fmt.Sprintf(`{"characteristics":[{"aid":%d,"iid":%d,"ev":"maybe"}]}`, aid, iid)),
 		put("ev object", fmt.Sprintf(`{"characteristics":[{"aid":%d,"iid":%d,"ev":{"x":[1]}}]}`, aid, iid)),
 		put("invalid utf-8 string value", ch("\"\xff\xfe\"")),
@@ -174,9 +178,9 @@ func checkC13(c *Ctx) {
 		case "pairings-verified":
 			inputs = pairingsMalformed(r)
 		}
-		nin := len(inputs)
-		if nin == 0 {
-			nin = 40
+		nin := len(inputs) + 12 // + the "deep" inputs that c13One builds once it holds the keys of the protocol state
+		if len(inputs) == 0 {
+			nin = 48
 		}
 		for ii := 0; ii < nin; ii++ {
 			c13One(c, id, sc.name, sc.state, ii, r)
@@ -213,10 +217,8 @@ func c13One(c *Ctx, id, scen string, state, ii int, r0 *rand.Rand) {
 	default:
 		inputs = jsonMalformed(r, sw.ID, sw.Switch.On.ID)
 	}
-	if ii >= len(inputs) {
-		return
-	}
-	in := inputs[ii]
+	var in malInput
+	var deep []malInput // authenticated-but-malformed messages, built with the keys of the state reached below
 	post := f.Post(addr)
 	// ---- reach the protocol state
 	var prefixOK = true
@@ -231,12 +233,55 @@ func c13One(c *Ctx, id, scen string, state, ii int, r0 *rand.Rand) {
 				M1, _ := cl.Respond(tlvGet(items, tSalt), tlvGet(items, tPubKey))
 				st, _, _ = post("/pair-setup", tlvMsg(tlvOp{tState, b1(3)}, tlvOp{tPubKey, cl.Abytes()}, tlvOp{tProof, M1}))
 				prefixOK = st == 200
+				// M5 correctly sealed under the session key, with a malformed inside
+				encKey := refHKDF(cl.K, "Pair-Setup-Encrypt-Salt", "Pair-Setup-Encrypt-Info")
+				hx5 := refHKDF(cl.K, "Pair-Setup-Controller-Sign-Salt", "Pair-Setup-Controller-Sign-Info")
+				evil := newRefIdentity(r, "deep")
+				sealed := func(desc string, sub []byte) {
+					deep = append(deep, malInput{"M5 sealed correctly: " + desc, "POST", "/pair-setup", "application/pairing+tlv8",
+						tlvMsg(tlvOp{tState, b1(5)}, tlvOp{tEnc, refSeal(encKey, []byte("PS-Msg05"), sub, nil)}), ""})
+				}
+				sigOver := func(pk []byte) []byte {
+					return ed25519.Sign(evil.Priv, append(append(append([]byte{}, hx5...), []byte(evil.Name)...), pk...))
+				}
+				for _, n := range []int{0, 1, 16, 31, 33, 64} {
+					pk := randBytes(r, n)
+					sealed(fmt.Sprintf("long-term key of %d bytes", n), tlvMsg(tlvOp{tID, []byte(evil.Name)}, tlvOp{tPubKey, pk}, tlvOp{tSig, sigOver(pk)}))
+				}
+				for _, n := range []int{0, 1, 63, 65, 200} {
+					sealed(fmt.Sprintf("signature of %d bytes", n), tlvMsg(tlvOp{tID, []byte(evil.Name)}, tlvOp{tPubKey, evil.Pub}, tlvOp{tSig, randBytes(r, n)}))
+				}
+				sealed("empty sub-TLV", nil)
+				sealed("sub-TLV is garbage", randBytes(r, 40))
+				sealed("no identifier", tlvMsg(tlvOp{tPubKey, evil.Pub}, tlvOp{tSig, sigOver(evil.Pub)}))
 			}
 		}
 	case "pair-verify":
 		if state >= 1 {
-			st, _, _ := post("/pair-verify", tlvMsg(tlvOp{tState, b1(1)}, tlvOp{tPubKey, refX25519Pub(randBytes(r, 32))}))
+			esk := randBytes(r, 32)
+			st, body, _ := post("/pair-verify", tlvMsg(tlvOp{tState, b1(1)}, tlvOp{tPubKey, refX25519Pub(esk)}))
 			prefixOK = st == 200
+			items, _ := refTlvParse(body)
+			if apk := tlvGet(items, tPubKey); len(apk) == 32 {
+				// M3 correctly sealed under the exchange key, with a malformed inside / naming odd stored entities
+				vk := refHKDF(refX25519(esk, apk), "Pair-Verify-Encrypt-Salt", "Pair-Verify-Encrypt-Info")
+				f.db.SaveEntity(db.NewEntity("short-key", randBytes(r, 16), nil))
+				f.db.SaveEntity(db.NewEntity("long-key", randBytes(r, 33), nil))
+				f.db.SaveEntity(db.NewEntity("no-key", nil, nil))
+				sealed := func(desc string, sub []byte) {
+					deep = append(deep, malInput{"M3 sealed correctly: " + desc, "POST", "/pair-verify", "application/pairing+tlv8",
+						tlvMsg(tlvOp{tState, b1(3)}, tlvOp{tEnc, refSeal(vk, []byte("PV-Msg03"), sub, nil)}), ""})
+				}
+				for _, name := range []string{"short-key", "long-key", "no-key", "never-stored", "", ident.Name, f.name} {
+					for _, n := range []int{64, 0, 63} {
+						sealed(fmt.Sprintf("name %q, signature of %d bytes", name, n), tlvMsg(tlvOp{tID, []byte(name)}, tlvOp{tSig, randBytes(r, n)}))
+						if len(deep) >= 11 {
+							break
+						}
+					}
+				}
+				sealed("sub-TLV is garbage", randBytes(r, 30))
+			}
 		}
 	case "json-verified", "pairings-verified":
 		var shared [32]byte
@@ -250,6 +295,11 @@ func c13One(c *Ctx, id, scen string, state, ii int, r0 *rand.Rand) {
 		c.Violate("honest protocol prefix is rejected", id, scen, "accepted", "rejected")
 		return
 	}
+	inputs = append(inputs, deep...)
+	if ii >= len(inputs) {
+		return
+	}
+	in = inputs[ii]
 	// ---- the malformed input (json scenarios: send the whole list on one connection, order matters for "twice")
 	send := []malInput{in}
 	if strings.HasSuffix(in.Desc, "again") || strings.Contains(in.Desc, "again (") {
@@ -309,14 +359,16 @@ func checkC13E2E(c *Ctx) {
 		return
 	}
 	r := c.CaseRng("e2e", 0)
-	sw := accessory.NewSwitch(accessory.Info{Name: "Sw"})
 	dir := c.ScratchDir()
-	acc, err := startE2E(dir, "00102003", true, sw.Accessory)
+	// the accessory runs in a child process: an unrecovered panic (e.g. in net/http's background read, which has no
+	// recover) ends that process, which the harness then observes instead of dying with it
+	acc, err := startE2EChild(dir)
 	if err != nil {
 		c.Violate("transport does not start", id, nil, "started", err.Error())
 		return
 	}
 	defer acc.Stop()
+	swID, onID := acc.aid, acc.iid
 	ident := newRefIdentity(r, "ctrl-1")
 	first, _ := acc.Dial()
 	sr := refPairSetup(r, first.Post(), "001-02-003", ident)
@@ -344,7 +396,7 @@ func checkC13E2E(c *Ctx) {
 		case "pairings-verified":
 			inputs = pairingsMalformed(r)
 		default:
-			inputs = jsonMalformed(r, sw.ID, sw.Switch.On.ID)
+			inputs = jsonMalformed(r, swID, onID)
 		}
 		for k := 0; k < per && k < len(inputs); k++ {
 			in := inputs[(k*7+int(c.Seed))%len(inputs)]
@@ -400,6 +452,64 @@ func checkC13E2E(c *Ctx) {
 			}
 			n2.Close()
 			c.Trace()
+			if !acc.Alive() {
+				c.Violate("remote input ends the accessory process", id, desc, "accessory keeps serving", "process exited")
+				return
+			}
 		}
+	}
+	// ---- raw frames on a verified connection (the length field of a frame is not authenticated before it is used)
+	type rawCase struct {
+		desc     string
+		inFlight bool
+		frame    []byte
+	}
+	hdr := func(n int, body int) []byte { return append([]byte{byte(n), byte(n >> 8)}, randBytes(r, body)...) }
+	raws := []rawCase{
+		{"frame header announcing 1280 bytes, garbage", false, hdr(0x0500, 1296)},
+		{"frame header announcing 65535 bytes, garbage", false, hdr(0xffff, 3000)},
+		{"frame header announcing 1025 bytes while a request is in flight", true, hdr(1025, 1041)},
+		{"frame header announcing 40000 bytes while a request is in flight", true, hdr(40000, 5000)},
+		{"zero-length frame with a garbage tag while a request is in flight", true, hdr(0, 16)},
+		{"truncated frame then silence", false, hdr(100, 20)},
+	}
+	for _, rc := range raws {
+		cl, err := acc.Dial()
+		if err != nil {
+			c.Violate("accessory does not accept connections any more", id, rc.desc, "connect", err.Error())
+			return
+		}
+		vr := refPairVerify(r, cl.Post(), ident, sr.AccLTPK)
+		if vr.Shared == nil {
+			c.Violate("paired reference controller cannot verify", id, rc.desc, "verified", vr.ErrAt)
+			cl.Close()
+			continue
+		}
+		cl.Upgrade(vr.Shared)
+		payload := rc.frame
+		if rc.inFlight {
+			// a valid request and the bad frame in one segment: the frame is read while the request is being served
+			req := cl.sess.Encrypt([]byte("GET /accessories HTTP/1.1\r\nHost: x\r\n\r\n"))
+			payload = append(req, rc.frame...)
+		}
+		cl.conn.Write(payload)
+		time.Sleep(30 * time.Millisecond)
+		cl.Close()
+		desc := "tcp verified connection: " + rc.desc
+		c.Count(desc, true, "e2e:raw-frames")
+		if !acc.Alive() {
+			c.Violate("remote input ends the accessory process", id, map[string]interface{}{"scenario": desc, "frame_header_hex": hx(rc.frame[:2])}, "accessory keeps serving", "process exited")
+			return
+		}
+		n2, err := acc.Dial()
+		if err != nil {
+			c.Violate("accessory does not accept connections any more", id, desc, "connect", err.Error())
+			return
+		}
+		if vr := refPairVerify(r, n2.Post(), ident, sr.AccLTPK); vr.Shared == nil {
+			c.Violate("accessory cannot complete pair-verify after malformed input", id, desc+"; then handshake on a new connection", "verified", vr.ErrAt)
+		}
+		n2.Close()
+		c.Trace()
 	}
 }
